@@ -45,7 +45,7 @@ theorem EnvFacts.internName_id (he : EnvFacts env) {n : Nat} (hn : n < env.names
 
 def isPhase (i : Nat) (k : Tree) : Bool := k.value.phase == i
 
-theorem phase_le_two (v : Value) : v.phase ≤ 2 := by cases v <;> simp [Value.phase]
+theorem rt_phase_le_two (v : Value) : v.phase ≤ 2 := by cases v <;> simp [Value.phase]
 
 theorem filter_cons_phase (i : Nat) (k : Tree) (ks : List Tree) :
     (k :: ks).filter (isPhase i) = if k.value.phase = i then k :: ks.filter (isPhase i) else ks.filter (isPhase i) := by
@@ -57,7 +57,7 @@ theorem sorted_split : ∀ (ks : List Tree), OrderedKids ks →
   | k :: ks, hord => by
     obtain ⟨h1, h2⟩ := List.pairwise_cons.mp hord
     have ih := sorted_split ks h2
-    have hle := phase_le_two k.value
+    have hle := rt_phase_le_two k.value
     have hnone : ∀ i, i < k.value.phase → ks.filter (isPhase i) = [] := fun i hi =>
       List.filter_eq_nil_iff.mpr (fun b hb => by
         have := h1 b hb
